@@ -126,8 +126,12 @@ func (s *c09Script) written() [][]byte {
 	defer s.mu.Unlock()
 	return append([][]byte(nil), s.out...)
 }
-func (s *c09Script) LocalAddr() net.Addr  { return &net.TCPAddr{IP: net.IPv4(127, 0, 0, 1), Port: 40001} }
-func (s *c09Script) RemoteAddr() net.Addr { return &net.TCPAddr{IP: net.IPv4(127, 0, 0, 1), Port: 5683} }
+func (s *c09Script) LocalAddr() net.Addr {
+	return &net.TCPAddr{IP: net.IPv4(127, 0, 0, 1), Port: 40001}
+}
+func (s *c09Script) RemoteAddr() net.Addr {
+	return &net.TCPAddr{IP: net.IPv4(127, 0, 0, 1), Port: 5683}
+}
 func (s *c09Script) SetDeadline(time.Time) error      { return nil }
 func (s *c09Script) SetReadDeadline(time.Time) error  { return nil }
 func (s *c09Script) SetWriteDeadline(time.Time) error { return nil }
@@ -820,6 +824,9 @@ type c09CloseObs struct {
 
 func runC09Close(k c09CloseCase) (c09CloseObs, error) {
 	var o c09CloseObs
+	if k.tr == 4 {
+		return runC09SrvConnClose(k)
+	}
 	c, err := newC09Conn(k.tr, c09Cfg{closeSocket: k.sock, limitTotal: 16, limitEndpoint: 16, nstart: 8})
 	if err != nil {
 		return o, err
@@ -900,6 +907,153 @@ func runC09Close(k c09CloseCase) (c09CloseObs, error) {
 			_ = c.closeFn()
 		}()
 	}
+	o.panic_ = panics.Load() != 0
+	for i := range counts {
+		o.cb = append(o.cb, counts[i].Load())
+	}
+	return o, nil
+}
+
+// a server-side connection of the udp server (session without Run: shutdown is called by the server's
+// per-connection close function from the periodic tick, the datagram path and Stop): nclose goroutines
+// concurrently call cc.Close() and/or the server's periodic tick, then one more tick, then Stop.
+func runC09SrvConnClose(k c09CloseCase) (c09CloseObs, error) {
+	var o c09CloseObs
+	ld, err := coapNet.NewListenUDP("udp4", "127.0.0.1:0")
+	if err != nil {
+		return o, err
+	}
+	defer ld.Close()
+	got := make(chan func(now time.Time) bool, 1)
+	conns := make(chan *udpClient.Conn, 4)
+	s := udp.NewServer(
+		options.WithErrors(func(error) {}),
+		options.WithMux(mux.NewRouter()),
+		options.WithPeriodicRunner(func(f func(now time.Time) bool) { got <- f }),
+		options.WithTransmission(8, 1000*time.Hour, 4),
+		options.WithOnNewConn(func(cc *udpClient.Conn) { conns <- cc }),
+	)
+	serveErr := make(chan error, 1)
+	go func() { serveErr <- s.Serve(ld) }()
+	defer func() {
+		s.Stop()
+		select {
+		case <-serveErr:
+		case <-time.After(10 * time.Second):
+		}
+	}()
+	var tick func(now time.Time) bool
+	select {
+	case tick = <-got:
+	case <-time.After(10 * time.Second):
+		return o, errors.New("setup: server did not start")
+	}
+	p, err := net.DialUDP("udp4", nil, ld.LocalAddr().(*net.UDPAddr))
+	if err != nil {
+		return o, err
+	}
+	defer p.Close()
+	if _, err := p.Write(encodeWire(1, 1, 0x321, []byte{0x55}, nil, nil)); err != nil {
+		return o, err
+	}
+	var cc *udpClient.Conn
+	select {
+	case cc = <-conns:
+	case <-time.After(10 * time.Second):
+		return o, errors.New("setup: server did not see the peer")
+	}
+	// the server keeps the per-connection close function (session.Close(); session.shutdown()) in the
+	// connection's context under this key (udp/server/server.go closeKey)
+	closeFn, _ := cc.Context().Value("gocoapCloseConnection").(func())
+	if closeFn == nil {
+		return o, errors.New("setup: the connection carries no close function")
+	}
+	counts := make([]atomic.Int64, k.ncb)
+	for i := 0; i < k.ncb; i++ {
+		i := i
+		cc.AddOnClose(func() { counts[i].Add(1) })
+	}
+	opRes := make(chan error, k.inflight)
+	for i := 0; i < k.inflight; i++ {
+		i := i
+		go func() {
+			if i%2 == 0 {
+				opRes <- cc.Ping(context.Background())
+			} else {
+				resp, err := cc.Get(context.Background(), "/s"+strconv.Itoa(i))
+				if err == nil {
+					cc.ReleaseMessage(resp)
+				}
+				opRes <- err
+			}
+		}()
+	}
+	start := make(chan struct{})
+	var panics atomic.Int64
+	var wg sync.WaitGroup
+	for i := 0; i < k.nclose; i++ {
+		i := i
+		wg.Add(1)
+		go func() {
+			defer wg.Done()
+			defer func() {
+				if recover() != nil {
+					panics.Add(1)
+				}
+			}()
+			<-start
+			switch i % 3 {
+			case 0:
+				_ = cc.Close()
+				tick(time.Now())
+			case 1:
+				tick(time.Now())
+			default:
+				closeFn() // what Stop / the tick / the datagram path call for a closed peer
+			}
+		}()
+	}
+	close(start)
+	closersDone := make(chan struct{})
+	go func() { wg.Wait(); close(closersDone) }()
+	select {
+	case <-closersDone:
+		o.closers = true
+	case <-time.After(c09Watchdog):
+	}
+	func() {
+		defer func() {
+			if recover() != nil {
+				panics.Add(1)
+			}
+		}()
+		tick(time.Now()) // "removed on the next tick"
+		closeFn()        // and a late caller of the close function, after everything is down
+	}()
+	select {
+	case <-cc.Done():
+		o.done = true
+	case <-time.After(c09Watchdog):
+	}
+	o.ops = true
+	wd := c09After(c09Watchdog)
+	for i := 0; i < k.inflight; i++ {
+		select {
+		case <-opRes:
+		case <-wd:
+			o.ops = false
+		}
+	}
+	func() {
+		defer func() {
+			if recover() != nil {
+				panics.Add(1)
+			}
+		}()
+		_ = cc.Close()
+		tick(time.Now())
+		s.Stop()
+	}()
 	o.panic_ = panics.Load() != 0
 	for i := range counts {
 		o.cb = append(o.cb, counts[i].Load())
@@ -1315,6 +1469,9 @@ func runC09(a runArgs) error {
 			}
 		}
 	}
+	if thorough { // the same scenarios again: other goroutine interleavings, other garbage
+		ops = append(append(append([]c09OpCase(nil), ops...), ops...), ops...)
+	}
 	// run in parallel: every scenario owns its connection
 	par := 8
 	var wgOps sync.WaitGroup
@@ -1337,7 +1494,7 @@ func runC09(a runArgs) error {
 			var o opOut
 			o.k = k
 			for attempt := 0; attempt < 3; attempt++ {
-				o.ret, o.cls, o.err = runC09Op(k, a.seed*1000003+uint64(k.tr*10000+k.op*1000+k.pt*100+k.peer*10+k.trig))
+				o.ret, o.cls, o.err = runC09Op(k, a.seed*1000003+uint64(i*100000+k.tr*10000+k.op*1000+k.pt*100+k.peer*10+k.trig))
 				if o.err == nil {
 					break
 				}
@@ -1376,14 +1533,14 @@ func runC09(a runArgs) error {
 	if thorough {
 		nclose = []int{2, 3, 4, 5, 6, 7, 8}
 	}
-	reps := 1
+	reps := 2
 	if thorough {
-		reps = 4
+		reps = 20
 	}
 	for rep := 0; rep < reps; rep++ {
-		for _, tr := range []int{1, 2, 3} {
+		for _, tr := range []int{1, 2, 3, 4} {
 			for _, sock := range []bool{true, false} {
-				if tr == 3 && !sock {
+				if (tr == 3 && !sock) || (tr == 4 && sock) {
 					continue
 				}
 				for _, n := range nclose {
